@@ -3,6 +3,7 @@ Helper lemmas for `StubGen.Theorems.C02a` (structural half of C02: brackets, bra
 string literals of the generated text are closed and properly nested).  Scanner: `Spec/Balance.lean`.
 Every name starts with `y02_`.
 -/
+import StubGen.Proofs.PathConv
 import StubGen.Spec.Balance
 import StubGen.Proofs.Lexical
 import StubGen.Proofs.TypeText
@@ -1715,13 +1716,16 @@ theorem y02_CS_escapePath {p : String} (h : ∀ s ∈ pySplit p '.', isIdent s.t
   exact y02_CS_escapeKeyword (h seg hseg)
 
 theorem y02_convertedPath_ident (p : String) (safe : Bool) (h : pathBal p = true) :
-    ∀ s ∈ pySplit (convertName p safe) '.', isIdent s.toList = true := by
+    ∀ s ∈ pySplit (convertPath p safe) '.', isIdent s.toList = true := by
   unfold pathBal at h
   rw [List.all_eq_true] at h
   have h' : ∀ s ∈ pySplit p '.', Convertible s.toList = true := fun s hs => by simpa using h s hs
+  rw [pc_split_convertPath]
+  intro s hs
+  obtain ⟨q, hq, rfl⟩ := List.mem_map.mp hs
   cases safe with
-  | true => exact lx_convertedPath_segments_ident p h'
-  | false => rw [C09.convert_off]; exact fun s hs => lx_convertible_isIdent (h' s hs)
+  | true => exact C09.convert_on_legal q false (h' q hq)
+  | false => rw [C09.convert_off]; exact lx_convertible_isIdent (h' q hq)
 
 theorem y02_pathBal_safe (p : String) (h : pathBal p = true) : stringBodySafe p.toList = true := by
   unfold pathBal at h
